@@ -221,10 +221,12 @@ theorem c02_terminates_auto (cfg : Cfg) (g : G) (hwf : wfAuto cfg.env g = true) 
 /-- the certificate check is a boolean function: decidable -/
 def c02_wf_decidable (cert : WFCert) (env : List G) (g : G) : Decidable (wf cert env g = true) := inferInstance
 
-theorem c02_wf_facts :
-    Facts.curtailCond = "leftRecCtx.Get(parserIndex)>ctx.Reader().Remaining(pos)+1" ∧
-    Facts.seqResetCond = "node.ReaderPos()>pos" :=
-  ⟨rfl, rfl⟩
+/- (the text facts that stood here - condition lists and statement orders of Memoize, ResultCache, Any, Choice, the Sequence
+   machinery, ReturnError, SetError, Parse, re-read from the source as normalised text - are subsumed since translator v3: the
+   functions themselves are translated from the source on every run and the model is PROVED to agree with the translation
+   (Props/C01P.lean, built and audited by this property's check).  Unlike a text comparison, that tie is not broken by an
+   equivalent rewrite of the source.) -/
+theorem c02_wf_facts : Facts.curtailSlack = 1 := rfl
 
 /-! ### terminals in scope -/
 
